@@ -235,24 +235,74 @@ def _mentions_local(c, local):
     return ('"local": %d,' % local) in txt or ('"local": %d}' % local) in txt
 
 
+def _chase_closure(b, local, depth=0):
+    """(local that holds the closure aggregate, closure path) reached from `local` through plain moves and borrows, or None"""
+    if depth > 6:
+        return None
+    p = M._unique_closure_def(b, local)
+    if p is not None:
+        return local, p
+    rv = _unique_stmt_def(b, local)
+    if rv is None:
+        return None
+    if rv['k'] == 'ref' and not rv['place']['proj']:
+        return _chase_closure(b, rv['place']['local'], depth + 1)
+    if rv['k'] == 'use' and rv['op']['k'] in ('move', 'copy') and not rv['op']['place']['proj']:
+        return _chase_closure(b, rv['op']['place']['local'], depth + 1)
+    return None
+
+
+def inline_closure_calls_again(doc):
+    """second round after helpers were grafted into their callers: closure values that travelled through a helper's parameter"""
+    closures = {b['path']: b for b in doc['bodies'] if b['kind'] == 'Closure'}
+    pristine = {p: copy.deepcopy(b) for p, b in closures.items()}
+    done = []
+    for b in doc['bodies']:
+        for _ in range(3):
+            hit = False
+            for i in range(len(b['blocks'])):
+                blk = b['blocks'][i]
+                t = blk['term']
+                if t['k'] == 'call' and not blk['cleanup'] and t['func'].get('def') in CLOSURE_CALLS:
+                    u = inline_closure_call(b, i, pristine)
+                    if u is not None:
+                        done.append((b['path'], u['path']))
+                        hit = True
+            if not hit:
+                break
+    return done
+
+
 def inline_closure_call(b, bb, pristine):
     """`let f = |a, b| body; .. f(x, y) ..` — the direct call of a closure defined in the same function is its body with the parameters
     bound to the arguments and the captures to the captured places.  Returns the closure body grafted, or None."""
     t = b['blocks'][bb]['term']
     f = t['func']
-    path = f.get('resolved')
-    if f.get('def') not in CLOSURE_CALLS or path not in pristine or path == b['path'] or len(t['args']) != 2 or t['target'] is None:
+    if f.get('def') not in CLOSURE_CALLS or len(t['args']) != 2 or t['target'] is None:
         return None
-    c = pristine[path]
     env, tup = t['args']
     if env['k'] not in ('move', 'copy') or env['place']['proj'] or tup['k'] not in ('move', 'copy') or tup['place']['proj']:
         return None
+    path = f.get('resolved')
+    chased = None
+    if path not in pristine:
+        # a closure handed to a generic helper (`fn rows<W: FnMut(..)>(.., mut write_row: W)`) that was grafted into this function: the call
+        # is generic in the helper's MIR; the value called is found by following the moves back to the closure expression
+        chased = _chase_closure(b, env['place']['local'])
+        if chased is None:
+            return None
+        path = chased[1]
+    if path not in pristine or path == b['path']:
+        return None
+    c = pristine[path]
     # the closure value: the operand itself, or what it borrows; a closure that captures nothing can be called from anywhere (typically
     # from another closure that captured it: `let is_zero = |r| ..; rows.filter(|r| !is_zero(r))`), its body does not depend on the value
     clo_local = env['place']['local']
     env_free = not _mentions_local(c, 1)
     if env_free:
         clo_local = None
+    elif chased is not None:
+        clo_local = chased[0]
     elif M._unique_closure_def(b, clo_local) != path:
         rv = _unique_stmt_def(b, clo_local)
         if rv is None or rv['k'] != 'ref' or rv['place']['proj'] or M._unique_closure_def(b, rv['place']['local']) != path:
